@@ -159,7 +159,7 @@ func (x *Exec) bindParams(env *SpecEnv, fc *FuncContract, fn *ssa.Function, fr *
 
 // sweepFunc runs a function without a contract of its own, only to generate the obligations of
 // call-site contracts (and monitors) found in it.
-func sweepFunc(p *Prog, db *ContractDB, fn *ssa.Function, prop string) (u *Unit) {
+func sweepFunc(p *Prog, db *ContractDB, fn *ssa.Function, prop string, sweepSet map[*ssa.Function]bool) (u *Unit) {
 	t0 := time.Now()
 	u = &Unit{Kind: "sweep", Name: shortFn(fn), Pos: p.pos(fn.Pos())}
 	x := newExec(p, db)
@@ -167,6 +167,8 @@ func sweepFunc(p *Prog, db *ContractDB, fn *ssa.Function, prop string) (u *Unit)
 	x.mode = "sweep"
 	x.top = fn
 	x.sweepOnly = true
+	x.sweepSet = sweepSet
+	x.maxDepth = 2
 	defer func() {
 		if r := recover(); r != nil {
 			u.Err = fmt.Sprintf("engine panic: %v", r)
